@@ -160,9 +160,22 @@ impl Driver {
                 Some(f.sign(b, ChonkyMsg::ReplicaTimeout(ReplicaTimeout { view: c.view(v), high_vote: if self.rng.gen_bool(0.6) { hv } else { None }, high_qc: if self.rng.gen_bool(0.6) { hq } else { None } })))
             }
             4 | 5 | 6 => {
-                // proposal (equivocating when b leads the view of the justification)
-                let j = self.craft_just()?;
-                let payload = if self.rng.gen_bool(0.75) { Some(self.w.labels.payload(&format!("z{}", self.rng.gen_range(0..3)))) } else { None };
+                // proposal (equivocating when b leads the view of the justification): prefer a justification whose next view b leads
+                let mut j = self.craft_just()?;
+                for _ in 0..6 {
+                    if c.leader(j.view().number.0) == b {
+                        break;
+                    }
+                    if let Some(j2) = self.craft_just() {
+                        j = j2;
+                    }
+                }
+                let payload = match self.rng.gen_range(0..20) {
+                    0..=3 => Some(self.w.labels.payload("huge")), // above max_payload_size
+                    4 | 5 => Some(self.w.labels.payload("bad")), // refused by the application
+                    6..=8 => None,
+                    _ => Some(self.w.labels.payload(&format!("z{}", self.rng.gen_range(0..3)))),
+                };
                 Some(f.sign(b, ChonkyMsg::LeaderProposal(LeaderProposal { proposal_payload: payload, justification: j })))
             }
             7 => {
@@ -188,7 +201,37 @@ impl Driver {
         let c = self.w.c.clone();
         let f = Forge { c: &c };
         let view = self.max_view();
-        match self.rng.gen_range(0..7) {
+        match self.rng.gen_range(0..11) {
+            7 => {
+                // timeout vote for a fresh view with a signature that is not the sender's
+                let mut m = f.sign(b, ChonkyMsg::ReplicaTimeout(ReplicaTimeout { view: c.view(view + 1), high_vote: None, high_qc: None }));
+                let other = f.sign(0, ChonkyMsg::ReplicaTimeout(ReplicaTimeout { view: c.view(view + 2), high_vote: None, high_qc: None }));
+                m.sig = other.sig;
+                self.w.labels.forged_sig.insert(ByteFmt::encode(&m.sig));
+                Some(m)
+            }
+            8 => {
+                // new-view carrying a genuine certificate, message signature forged
+                let j = self.craft_just()?;
+                let mut m = f.sign(b, ChonkyMsg::ReplicaNewView(ReplicaNewView { justification: j }));
+                let other = f.sign(0, ChonkyMsg::ReplicaTimeout(ReplicaTimeout { view: c.view(view + 3), high_vote: None, high_qc: None }));
+                m.sig = other.sig;
+                self.w.labels.forged_sig.insert(ByteFmt::encode(&m.sig));
+                Some(m)
+            }
+            9 => {
+                // new-view carrying a genuine certificate, sent by a non-member
+                let j = self.craft_just()?;
+                Some(f.sign(0, ChonkyMsg::ReplicaNewView(ReplicaNewView { justification: j })))
+            }
+            10 => {
+                // commit vote for a fresh view on another chain
+                let p = self.w.labels.payload("z1");
+                let mut v = f.vote(view + 1, 0, &p);
+                let other = Committee::new(&[1, 1], 999);
+                v.view.genesis = other.genesis.hash();
+                Some(f.commit(b, v))
+            }
             6 => {
                 // a timeout certificate for view v that aggregates (genuine) timeout votes signed in an EARLIER view
                 let touts = timeouts_in(&self.pool);
